@@ -88,20 +88,96 @@ Theorem C20_reporting_contiguous_unchanged : forall o data rows we ws, sorted da
 Proof. exact reporting_contiguous_l. Qed.
 Print Assumptions C20_reporting_contiguous_unchanged.
 
-(* a gap between a requested limit and the data is reported as a warning, and only then *)
-Theorem C20_baseline_gap_warned : forall o data rows we ws, sorted data ->
+(* "A gap between the requested limits and the data is always reported as a warning."
+   Full statement (kept visible): a warning exactly when there is a gap. *)
+Definition C20_baseline_gap_statement : Prop := forall o data rows we ws, sorted data ->
   get_baseline_data o data = Ok rows we ws ->
-  (we = true <-> exists e, b_end o = Some e /\ forall r, In r data -> ts r < e) /\
-  (ws = true <-> exists s, b_start o = Some s /\ forall r, In r data -> s < ts r).
-Proof. exact baseline_gap_warned_l. Qed.
-Print Assumptions C20_baseline_gap_warned.
-
-Theorem C20_reporting_gap_warned : forall o data rows we ws, sorted data ->
+  (we = true <-> gap_end (b_end o) data) /\ (ws = true <-> gap_start (b_start o) data).
+Definition C20_reporting_gap_statement : Prop := forall o data rows we ws, sorted data ->
   get_reporting_data o data = Ok rows we ws ->
-  (we = true <-> exists e, r_end o = Some e /\ forall r, In r data -> ts r < e) /\
-  (ws = true <-> exists s, r_start o = Some s /\ forall r, In r data -> s < ts r).
-Proof. exact reporting_gap_warned_l. Qed.
-Print Assumptions C20_reporting_gap_warned.
+  (we = true <-> gap_end (r_end o) data) /\ (ws = true <-> gap_start (r_start o) data).
+
+(* never a spurious warning, whatever the options *)
+Theorem C20_baseline_gap_sound : forall o data rows we ws, sorted data ->
+  get_baseline_data o data = Ok rows we ws ->
+  (we = true -> gap_end (b_end o) data) /\ (ws = true -> gap_start (b_start o) data).
+Proof. exact baseline_gap_sound_l. Qed.
+Print Assumptions C20_baseline_gap_sound.
+
+Theorem C20_reporting_gap_sound : forall o data rows we ws, sorted data ->
+  get_reporting_data o data = Ok rows we ws ->
+  (we = true -> gap_end (r_end o) data) /\ (ws = true -> gap_start (r_start o) data).
+Proof. exact reporting_gap_sound_l. Qed.
+Print Assumptions C20_reporting_gap_sound.
+
+(* the full equivalence holds under the exact guard that the option which moves that limit onto the
+   data is off; this is all the faithful model of the code satisfies (see the refutations below) *)
+Theorem C20_baseline_gap_warned_partial : forall o data rows we ws, sorted data ->
+  get_baseline_data o data = Ok rows we ws ->
+  (b_ignore_gap o = false -> (we = true <-> gap_end (b_end o) data)) /\
+  (b_overshoot o = false -> (ws = true <-> gap_start (b_start o) data)).
+Proof. exact baseline_gap_warned_partial_l. Qed.
+Print Assumptions C20_baseline_gap_warned_partial.
+
+Theorem C20_reporting_gap_warned_partial : forall o data rows we ws, sorted data ->
+  get_reporting_data o data = Ok rows we ws ->
+  (r_overshoot o = false -> (we = true <-> gap_end (r_end o) data)) /\
+  (r_ignore_gap o = false -> (ws = true <-> gap_start (r_start o) data)).
+Proof. exact reporting_gap_warned_partial_l. Qed.
+Print Assumptions C20_reporting_gap_warned_partial.
+
+(* refutations of the full statement on the faithful model (each witness is replayed on the
+   implementation by harness/c20.py and recorded as a known finding C20-K1..K4) *)
+Definition two_rows : list row := [(0, [Some 1]); (DAY, [Some 2])].
+Lemma two_rows_sorted : sorted two_rows.
+Proof. repeat constructor. Qed.
+
+Theorem C20_baseline_end_gap_refuted : exists o data rows ws,
+  sorted data /\ get_baseline_data o data = Ok rows false ws /\ gap_end (b_end o) data.
+Proof.
+  exists {| b_start := None; b_end := Some (5 * DAY); b_max_days := Some 30; b_overshoot := false;
+            b_n_over := None; b_ignore_gap := true |}, two_rows, [(0, [Some 1]); (DAY, [None])], false.
+  split; [exact two_rows_sorted|]. split; [vm_compute; reflexivity|].
+  exists (5 * DAY). split; [reflexivity|]. intros r [<-|[<-|[]]]; vm_compute; reflexivity.
+Qed.
+Print Assumptions C20_baseline_end_gap_refuted.
+
+Theorem C20_baseline_start_gap_refuted : exists o data rows we,
+  sorted data /\ get_baseline_data o data = Ok rows we false /\ gap_start (b_start o) data.
+Proof.
+  exists {| b_start := Some (- DAY); b_end := None; b_max_days := None; b_overshoot := true;
+            b_n_over := None; b_ignore_gap := false |}, two_rows, [(0, [Some 1]); (DAY, [None])], false.
+  split; [exact two_rows_sorted|]. split; [vm_compute; reflexivity|].
+  exists (- DAY). split; [reflexivity|]. intros r [<-|[<-|[]]]; vm_compute; reflexivity.
+Qed.
+Print Assumptions C20_baseline_start_gap_refuted.
+
+Theorem C20_reporting_end_gap_refuted : exists o data rows ws,
+  sorted data /\ get_reporting_data o data = Ok rows false ws /\ gap_end (r_end o) data.
+Proof.
+  exists {| r_start := None; r_end := Some (5 * DAY); r_max_days := None; r_overshoot := true;
+            r_ignore_gap := false |}, two_rows, [(0, [Some 1]); (DAY, [None])], false.
+  split; [exact two_rows_sorted|]. split; [vm_compute; reflexivity|].
+  exists (5 * DAY). split; [reflexivity|]. intros r [<-|[<-|[]]]; vm_compute; reflexivity.
+Qed.
+Print Assumptions C20_reporting_end_gap_refuted.
+
+Theorem C20_reporting_start_gap_refuted : exists o data rows we,
+  sorted data /\ get_reporting_data o data = Ok rows we false /\ gap_start (r_start o) data.
+Proof.
+  exists {| r_start := Some (- DAY); r_end := None; r_max_days := Some 30; r_overshoot := false;
+            r_ignore_gap := true |}, two_rows, [(0, [Some 1]); (DAY, [None])], false.
+  split; [exact two_rows_sorted|]. split; [vm_compute; reflexivity|].
+  exists (- DAY). split; [reflexivity|]. intros r [<-|[<-|[]]]; vm_compute; reflexivity.
+Qed.
+Print Assumptions C20_reporting_start_gap_refuted.
+
+(* non-vacuity of the guarded equivalences: a gap that *is* reported *)
+Example C20_gap_reported_example :
+  get_baseline_data {| b_start := None; b_end := Some (5 * DAY); b_max_days := Some 30; b_overshoot := false;
+                       b_n_over := None; b_ignore_gap := false |} two_rows
+  = Ok [(0, [Some 1]); (DAY, [None])] true false.
+Proof. vm_compute. reflexivity. Qed.
 
 (* total outcome: the dedicated error exactly when the selection has no complete row *)
 Theorem C20_baseline_outcome : forall o data,
